@@ -180,6 +180,16 @@ def main(tier):
     tasks = list(b['nfiles'])
     results = pmap(run_order, tasks)
     sres = pmap(run_scope_orders, list(itertools.permutations(range(3))))
+    from . import c15
+    dres = pmap(c15.run_difforder, list(itertools.permutations(range(3))))
+    for r in dres:
+        r.pop('results', None)
+        for i, v in enumerate(r.get('violations', [])):
+            c15.confirm_difforder(binary, v, i, PROP)
+        dvs = list(r.get('violations', []))
+        r['violations'] = []
+        agg.add(r)
+        agg.violations.extend(dvs)
     groups = {}
     for r in results:
         rs = r.pop('results', [])
@@ -216,6 +226,9 @@ def main(tier):
         if v['role'] in seen:
             continue
         seen.add(v['role'])
+        if v['role'] in ('diff-section-lost', 'diff-sections-error'):
+            final.append(v)
+            continue
         v['confirmed'] = True
         v['replay'] = save_replay(PROP, v['role'], files, "'**'", 'run repeatedly (different hash seeds) and compare; ' + v['summary'][:300], v)
         final.append(v)
@@ -236,7 +249,7 @@ def main(tier):
         assumptions=['every std HashMap/HashSet is an association-list model iterated in the order the run prescribes (a hashing seed only ever changes that order)',
                      'threads are run in spawn order; OS scheduling, core count, cwd and the real directory walk are outside', 'the async validators are outside'],
         stubs=['OpenAiClient::new_from_env', 'stderr / to_writer_pretty / process::exit', 'FileSystem / PathChecker / grammar in the scope scenario'],
-        must_cover=['orders', 'scope-orders'],
+        must_cover=['orders', 'scope-orders', 'diff-orders'],
         explanation='the same scenario is executed on the real MIR under every iteration order; instantiated validators, merged violations, exit status, examined files and result keys must be identical')
 
 
